@@ -314,14 +314,18 @@ def c08(tier, seed):
     q = ck.quick
     s = 8 if q else 48
     # single-asset Env: new limit/market orders and cancels (also of orders created in the same batch)
-    env_gen(ck, "gen_env_new_cancel", kind="env", seeds=s, MaxSubmits=4 if q else 5, MaxBatch=3 if q else 4, MaxSteps=2,
+    # (step size = largest batch, so full batches occur: "batch sizes up to the step size")
+    env_gen(ck, "gen_env_new_cancel", kind="env", seeds=s, StepSize=3 if q else 4, MaxSubmits=4 if q else 5, MaxBatch=3 if q else 4, MaxSteps=2,
             need=("schedule_matters", "has_trade", "multi_step", "has_cancel"), timeout=400 if q else 1800)
     # modifies (several instructions for one order, orders modified in the step that creates them)
-    env_gen(ck, "gen_env_modify", kind="env", seeds=s, Ops=["new", "modify", "step"], Kinds=["L"], Vols=[2], ModPrices=[-1, 10, 11],
+    env_gen(ck, "gen_env_modify", kind="env", seeds=s, StepSize=3, Ops=["new", "modify", "step"], Kinds=["L"], Vols=[2], ModPrices=[-1, 10, 11],
             ModVolsAbs=[-1, 1, 3], MaxSubmits=3 if q else 4, MaxBatch=3, MaxSteps=2 if q else 3, MaxOrders=2,
             need=("schedule_matters", "has_modify", "has_trade"), timeout=400 if q else 1800)
     # multi-asset environment, trading toggled
-    env_gen(ck, "gen_menv", kind="menv", seeds=s, Ticks=(1, 2), Ops=["new", "cancel", "step", "disable", "enable"], Kinds=["L"] if q else ["L", "M"],
+    env_gen(ck, "gen_menv_full_batch", kind="menv", seeds=s, Ticks=(1, 1), StepSize=2, Ops=["new", "cancel", "modify", "step"], Kinds=["L", "M"],
+            Prices=[10], ModPrices=[-1], ModVolsAbs=[1], MaxSubmits=4, MaxBatch=2, MaxSteps=2 if q else 3, MaxOrders=2,
+            need=("schedule_matters", "has_trade", "multi_step"), timeout=400 if q else 1800)
+    env_gen(ck, "gen_menv", kind="menv", seeds=s, Ticks=(1, 2), StepSize=3, Ops=["new", "cancel", "step", "disable", "enable"], Kinds=["L"] if q else ["L", "M"],
             Prices=[10], MaxSubmits=3, MaxBatch=3, MaxSteps=2, MaxOrders=2,
             need=("schedule_matters", "has_trade", "trading_toggled"), timeout=400 if q else 1800)
     return ck.finish("model_checking", LEVEL_TEXT, ENV_RULE + "paths whose outcome depends on the schedule",
@@ -336,6 +340,11 @@ def c10(tier, seed):
     env_gen(ck, "gen_env_submit", kind="env", seeds=s, Ops=["new", "cancel", "modify", "step"], Kinds=["L", "M"], ModPrices=[-1, 11],
             ModVolsAbs=[-1, 1], MaxSubmits=3 if q else 4, MaxBatch=3, MaxSteps=2, MaxOrders=3,
             need=("submit_after_step", "has_trade", "has_cancel", "has_modify"), timeout=400 if q else 1800)
+    # submissions while trading is disabled (market orders must stay New until the step rejects them)
+    env_gen(ck, "gen_env_submit_toggle", kind="env", seeds=s, Ops=["new", "step", "disable", "enable"], Kinds=["L", "M"], Prices=[10], Vols=[1],
+            MaxSubmits=3, MaxBatch=2, MaxSteps=2, MaxOrders=3, need=("submit_after_step", "trading_toggled"), timeout=400 if q else 1800)
+    env_gen(ck, "gen_menv_submit_toggle", kind="menv", seeds=s, Ticks=(1, 1), Ops=["new", "step", "disable", "enable"], Kinds=["M"], Prices=[10], Vols=[1],
+            Sides=["B"], MaxSubmits=2, MaxBatch=2, MaxSteps=2, MaxOrders=2, need=("trading_toggled",), timeout=400 if q else 1800)
     env_gen(ck, "gen_menv_submit", kind="menv", seeds=s, Ticks=(1, 1), Ops=["new", "cancel", "step"], Kinds=["L"], MaxSubmits=3 if q else 4,
             MaxBatch=3, MaxSteps=2, MaxOrders=2, need=("submit_after_step", "has_trade"), timeout=400 if q else 1800)
     return ck.finish("model_checking", LEVEL_TEXT, ENV_RULE + "paths ending in a submission made after at least one step",
@@ -352,6 +361,13 @@ def c11(tier, seed):
             need=("multi_step", "has_trade"), timeout=400 if q else 1800)
     env_gen(ck, "gen_menv_records", kind="menv", seeds=s, Ticks=(1, 2, 1), NLevels=1, Ops=["new", "step"], Kinds=["L"], Prices=[10, 12],
             Vols=[1, 2] if not q else [2], MaxSubmits=3, MaxBatch=3, MaxSteps=2, MaxOrders=2, need=("multi_step", "has_trade"), timeout=400 if q else 1800)
+    # modifications that trade (re-priced across the touch): their volume belongs to the step's traded volume
+    env_gen(ck, "gen_env_records_modify", kind="env", seeds=s, NLevels=2, Ops=["new", "modify", "step"], Kinds=["L"], Prices=[10, 11], Vols=[1, 2],
+            ModPrices=[10, 11], ModVolsAbs=[-1], MaxSubmits=3 if q else 4, MaxBatch=2, MaxSteps=3, MaxOrders=2,
+            need=("multi_step", "has_trade", "has_modify"), timeout=400 if q else 1800)
+    env_gen(ck, "gen_menv_records_modify", kind="menv", seeds=s, Ticks=(1, 1), NLevels=2, Ops=["new", "modify", "step"], Kinds=["L"], Prices=[10, 11], Vols=[1],
+            ModPrices=[10, 11], ModVolsAbs=[-1], MaxSubmits=3, MaxBatch=2, MaxSteps=2 if q else 3, MaxOrders=2,
+            need=("multi_step", "has_modify"), timeout=400 if q else 1800)
     env_gen(ck, "gen_env_records_l10", kind="env", seeds=s, NLevels=10, Ops=["new", "step"], Kinds=["L"], Prices=[10, 13, 19], Vols=[1, 2],
             Sides=["B", "A"], MaxSubmits=3, MaxBatch=2, MaxSteps=2, MaxOrders=3, need=("multi_step",), timeout=400 if q else 1800)
     return ck.finish("model_checking", LEVEL_TEXT, ENV_RULE + "paths with at least two steps",
@@ -370,6 +386,12 @@ def c14(tier, seed):
             need=("ops_on_two_assets", "trading_toggled", "op_modify", "op_reload"), timeout=400 if q else 1800)
     mkt_gen(ck, "gen_market3", Ticks=(2, 1, 3), NLevels=1, Ops=["cap", "cancel"], Kinds=["L"], Prices=[6, 12], Vols=[1, 2], MaxOrders=2,
             MaxOps=3 if q else 4, need=("ops_on_two_assets", "trades_on_two_assets") if not q else ("ops_on_two_assets",), timeout=400 if q else 1800)
+    # re-queuing modifications through the market (same price / same volume still loses priority): three orders per asset
+    mkt_gen(ck, "gen_market2_priority", Ticks=(1, 1), Ops=["cap", "modify"], Kinds=["L"], Prices=[10], Vols=[1, 2], ModPrices=[-1, 10],
+            ModVolsAbs=[-1, 2], MaxOrders=3, MaxOps=4, need=("ops_on_two_assets", "op_modify", "has_trade"), timeout=400 if q else 1800)
+    env_gen(ck, "gen_menv_modify", kind="menv", seeds=8 if q else 32, Ticks=(1, 1), Ops=["new", "modify", "step"], Kinds=["L"], Prices=[10, 11], Vols=[1],
+            ModPrices=[10, 11], ModVolsAbs=[-1], MaxSubmits=3, MaxBatch=2, MaxSteps=2 if q else 3, MaxOrders=2,
+            need=("has_modify", "multi_step"), timeout=400 if q else 1800)
     # shuffled batches across assets
     env_gen(ck, "gen_menv_assets", kind="menv", seeds=8 if q else 32, Ticks=(1, 2), Ops=["new", "cancel", "step"], Kinds=["L", "M"], Prices=[10, 12],
             MaxSubmits=3 if q else 4, MaxBatch=3, MaxSteps=2, MaxOrders=2, need=("schedule_matters", "has_trade"), timeout=400 if q else 1800)
@@ -378,7 +400,42 @@ def c14(tier, seed):
                      ("gen_market2.ops_on_two_assets", "gen_market2_modify_toggle.ops_on_two_assets", "gen_market3.ops_on_two_assets"))
 
 
-CHECKS = {"C01": c01, "C02": c02, "C03": c03, "C04": c04, "C05": c05, "C06": c06, "C07": c07, "C08": c08, "C10": c10, "C11": c11, "C14": c14, "C12": c12, "C13": c13}
+# ---------------------------------------------------------------------------------------------
+# agents
+AGENT_RULE = ("runs: seeded agent configurations (kind x single/multi asset x tick 1..10 x probabilities {0, 0.3, 1, 1.5} x sigma {1, 10} x "
+              "starting book x scripted boundary draws); every update call is one recorded event (observation + queued instructions) "
+              "validated by TLC against the agent relation; non-trivial = ")
+
+
+def c16(tier, seed):
+    ck = Check("C16", tier, seed)
+    q = ck.quick
+    base = {"max_steps": 40 if q else 200}
+    for kind in ("random", "noise", "momentum"):
+        ck.traces_stage("agents_" + kind, "record_agents", dict(base, kinds=[kind]), files=8 if q else 32, runs=100 if q else 200, ops=0,
+                        trace_spec="AgentTrace", consts={})
+    # the heavy-tailed price distribution of the project's documentation (sigma = 10) on every tick size
+    ck.traces_stage("agents_sigma10", "record_agents", dict(base, kinds=["noise", "momentum"], sigmas=[10.0]), files=8 if q else 32,
+                    runs=100 if q else 200, ops=0, trace_spec="AgentTrace", consts={})
+    return ck.finish("model_checking", LEVEL_TEXT, AGENT_RULE + "update calls that queued at least one instruction",
+                     ("agents_random.updates_with_instructions", "agents_noise.updates_with_instructions",
+                      "agents_momentum.updates_with_instructions", "agents_sigma10.updates_with_instructions"))
+
+
+def c17(tier, seed):
+    ck = Check("C17", tier, seed)
+    q = ck.quick
+    # saturated demand: direction and count are deterministic; TLC recomputes the momentum signal exactly
+    ck.traces_stage("momentum_saturated", "record_agents", {"kinds": ["momentum"], "saturate": True, "max_steps": 18, "probs": [0.0, 0.3], "sigmas": [1.0]},
+                    files=8 if q else 32, runs=100 if q else 200, ops=0, trace_spec="AgentTrace", consts={})
+    # mirrored pairs: the reflected price path must give the reflected order flow
+    ck.traces_stage("momentum_mirror", "record_agents", {"kinds": ["momentum"], "mirror": True, "saturate": True, "max_steps": 18, "probs": [0.0, 0.3], "sigmas": [1.0]},
+                    files=8 if q else 32, runs=60 if q else 120, ops=0, trace_spec="AgentTrace", consts={})
+    return ck.finish("model_checking", LEVEL_TEXT, AGENT_RULE + "update calls that queued at least one instruction",
+                     ("momentum_saturated.updates_with_instructions", "momentum_mirror.updates_with_instructions"))
+
+
+CHECKS = {"C01": c01, "C02": c02, "C03": c03, "C04": c04, "C05": c05, "C06": c06, "C07": c07, "C08": c08, "C10": c10, "C11": c11, "C14": c14, "C16": c16, "C17": c17, "C12": c12, "C13": c13}
 
 
 def replay(prop, path):
